@@ -39,6 +39,7 @@ type connState struct {
 	held       []byte // slice returned by the last Next/Peek, valid until the next read-type call
 	heldOff    int
 	heldWhat   string
+	peeks      []heldSlice // results of earlier Peeks that no consuming call has voided yet
 	idx        int
 	cp         *ConnPlan
 	c          gnet.Conn
